@@ -1,4 +1,8 @@
 import DV
+import DVP.Lemmas.Brent
+import Mathlib.Algebra.Module.LinearMap.Defs
+import Mathlib.Tactic.Module
+import Mathlib.Tactic.FieldSimp
 /-!
 # C16 — Jacobians are the true derivative, from the user's function when one is given
 
@@ -187,5 +191,45 @@ difference request at time 3, hook, unhook, the request at time 7 is answered by
 at time 7 -/
 example : (run { rhsHasJac := false } [.jac 3, .hook 11, .jac 4, .unhook, .jac 7, .jac 7, .setOrder, .jac 0, .jac 2]).2 =
     [.fd 3 false, .user 11, .fd 7 false, .fd 7 false, .fd 0 true, .fd 2 false] := by decide
+
+/-- the sums a stencil is judged by -/
+def wSum (st : List (ℚ × ℚ)) : ℚ := (st.map (·.2)).sum
+def wxSum (st : List (ℚ × ℚ)) : ℚ := (st.map (fun p => p.2 * p.1)).sum
+
+private theorem fd_fold {W V : Type} [AddCommGroup W] [Module ℚ W] [AddCommGroup V] [Module ℚ V] (L : W →ₗ[ℚ] V) (c : V) (y e : W) (dy : ℚ) :
+    ∀ (st : List (ℚ × ℚ)) (acc : V),
+      st.foldl (fun acc p => acc + p.2 • (L (y + (p.1 * dy) • e) + c)) acc =
+        acc + wSum st • (L y + c) + (dy * wxSum st) • L e
+  | [], acc => by simp [wSum, wxSum]
+  | p :: st, acc => by
+    rw [List.foldl_cons, fd_fold L c y e dy st]
+    simp only [wSum, wxSum, List.map_cons, List.sum_cons, map_add, map_smul]
+    module
+
+/-- **To rounding for linear maps, laid out column by column**: for every affine map `f(y) = L y + c` (any input and output
+spaces), every point, every input direction `e` and every step `dy ≠ 0`, the column the coded loop computes is
+`(Σ w_k / dy) · f(y) + (Σ w_k x_k) · L e` - the derivative of every output with respect to that input, times `Σ w_k x_k`,
+plus `f(y)` times the defect `Σ w_k` of the stencil over `dy`.  With `stencils_exact` (`|Σ w_k| ≤ 1e-12`,
+`|Σ w_k x_k - 1| ≤ 1e-12` for the regenerated stencils) this is the derivative to rounding. -/
+theorem fd_column_of_affine_map {W V : Type} [AddCommGroup W] [Module ℚ W] [AddCommGroup V] [Module ℚ V] (L : W →ₗ[ℚ] V) (c : V)
+    (y e : W) (dy : ℚ) (hdy : dy ≠ 0) (st : List (ℚ × ℚ)) :
+    fdColumn (α := ℚ) ⟨(· + ·), (· • ·), 0⟩ ⟨(· + ·), (· • ·), 0⟩ (fun w => L w + c) y e dy st =
+      (wSum st / dy) • (L y + c) + wxSum st • L e := by
+  unfold fdColumn
+  simp only [DVP.Brent.lit_rat, Nat.cast_one]
+  rw [fd_fold L c y e dy st 0, zero_add, smul_add, smul_smul, smul_smul]
+  congr 1
+  · congr 1; field_simp
+  · congr 1; field_simp
+
+/-- an exact stencil (`Σ w_k = 0`, `Σ w_k x_k = 1`) returns exactly the derivative of an affine map, whatever the step -/
+theorem fd_column_exact_stencil {W V : Type} [AddCommGroup W] [Module ℚ W] [AddCommGroup V] [Module ℚ V] (L : W →ₗ[ℚ] V) (c : V)
+    (y e : W) (dy : ℚ) (hdy : dy ≠ 0) (st : List (ℚ × ℚ)) (h0 : wSum st = 0) (h1 : wxSum st = 1) :
+    fdColumn (α := ℚ) ⟨(· + ·), (· • ·), 0⟩ ⟨(· + ·), (· • ·), 0⟩ (fun w => L w + c) y e dy st = L e := by
+  rw [fd_column_of_affine_map L c y e dy hdy st, h0, h1]; simp
+
+/-- non-vacuity: the central difference `[(-1, -1/2), (1, 1/2)]` on `f(y) = 3 y + 2` over ℚ -/
+example : fdColumn (α := ℚ) (W := ℚ) (V := ℚ) ⟨(· + ·), (· * ·), 0⟩ ⟨(· + ·), (· * ·), 0⟩ (fun w => 3 * w + 2) 5 1 (1/8) [(-1, -1/2), (1, 1/2)] = 3 := by
+  decide +kernel
 
 end DVP.C16
